@@ -78,6 +78,24 @@ Proof. vm_compute. reflexivity. Qed.
 Example cta_stale_still_guarded : check_program (mini [("Create", create_stale)]) [("Create", create_stale)] ["Create"] [] [] = [].
 Proof. vm_compute. reflexivity. Qed.
 
+(* a blocking wait that is not a mutex operation (callback kind "wait:...") under the registry lock is rejected: RemovePipelineAndNodes
+   waiting for the in-flight Sends while it holds the lock (seeded mutant C12-10); after the unlock it is accepted *)
+Definition waits_contracts (pr : program) : contracts :=
+  let ua := fun k => if String.prefix "wait:" k then [L] else [] in
+  {| guard_of := fun _ => GFree; requires := fun _ => []; acquires := fun f => assocd f (infer 6 ua pr []) [];
+     user_acquires := ua; constructors := []; waived := []; rank := fun _ => 5%nat |}.
+Definition remove_waiting : prog :=
+  PSeq (PAct (Acq L MW)) (PSeq (PDefer (Rel L MW)) (PSeq (PAct (User "wait:WaitGroup.Wait")) PRet)).
+Definition remove_not_waiting : prog :=
+  PSeq (PAct (Acq L MW)) (PSeq (PAct (Rel L MW)) (PSeq (PAct (User "wait:WaitGroup.Wait")) PRet)).
+Example wait_under_lock_rejected :
+  flat_complaints (check_program (waits_contracts [("Remove", remove_waiting)]) [("Remove", remove_waiting)] ["Remove"] [] [])
+  = [("Remove", KCallback, "wait:WaitGroup.Wait")].
+Proof. vm_compute. reflexivity. Qed.
+Example wait_after_unlock_accepted :
+  check_program (waits_contracts [("Remove", remove_not_waiting)]) [("Remove", remove_not_waiting)] ["Remove"] [] [] = [].
+Proof. vm_compute. reflexivity. Qed.
+
 Definition fenv_good := fenv_of (reachable mini_good ["Send"; "RemoveNode"]).
 Lemma fenv_good_remove : fenv_good "RemoveNode" = Some remove_good. Proof. vm_compute. reflexivity. Qed.
 Lemma fenv_good_send : fenv_good "Send" = Some send_body. Proof. vm_compute. reflexivity. Qed.
